@@ -250,6 +250,25 @@ def check_neutrals(F, rep, S):
             rep.ob("NEUTRAL", "rgb<-luma-equal-channels", ok, alg._short(v, 200), F.loc(b))
         except (Opaque, poly.TooBig) as ex:
             rep.fail("NEUTRAL", "rgb<-luma-equal-channels", "uninterpretable: %s" % ex, F.loc(b))
+    # a gray Luma sits at the white point's chromaticity in Yxy and is a multiple of the white point in Xyz
+    LUMA = "luma::luma::Luma"
+    ly, lx, yx = impls.get(("yxy::Yxy", LUMA), []), impls.get(("xyz::Xyz", LUMA), []), impls.get(("yxy::Yxy", "xyz::Xyz"), [])
+    if len(ly) == 1 and len(lx) == 1 and len(yx) == 1:
+        try:
+            b = ly[0][1]
+            v, _ = S.eval(b, names=["c"])
+            w, _ = S.ev.eval_body(yx[0][1], [white])
+            check_value(rep, "NEUTRAL", "grey-luma-at-white-chromaticity:Yxy", S, b, Tuple([v.fields["x"], v.fields["y"]]), Tuple([w.fields["x"], w.fields["y"]]),
+                        sample="Yxy::from(Luma(l)).(x, y) = Yxy::from(white point).(x, y) for every l")
+            b = lx[0][1]
+            u, _ = S.eval(b, names=["c"])
+            check_value(rep, "NEUTRAL", "grey-luma-proportional-to-white:Xyz", S, b,
+                        Tuple([R.mul(u.fields["x"], wy), R.mul(u.fields["z"], wy)]), Tuple([R.mul(u.fields["y"], wx), R.mul(u.fields["y"], wz)]),
+                        sample="Xyz::from(Luma(l)) = Y · white / wp.y")
+        except (Opaque, poly.TooBig, KeyError, AttributeError) as ex:
+            rep.fail("NEUTRAL", "grey-luma", "uninterpretable: %s" % ex, F.loc(b))
+    else:
+        rep.fail("ANCHOR", "neutral:luma", "Luma -> Yxy / Xyz conversions not found")
     # Oklab of D65 white: numeric residual (reported, armed at 5e-4)
     try:
         m1 = [float(consts.num(x)) for x in S.eval(F.fn("oklab::m1"))[0].items]
